@@ -261,6 +261,25 @@ theorem map_loaded_next_after_end (cfg : MCfg) (m : OMap r) (ld : SlabID → Boo
   subst hr
   exact IterMO.mapAnswers_after_end _ calls i j hij hj hi
 
+/-- ALONG HISTORIES, no hypothesis about the map at all: for EVERY history of requests (set / remove /
+    popIterate / setType, rejected requests included) issued against a new map - any legal threshold,
+    ANY digest function, any owner address, any initial allocation counter - and after EVERY prefix of
+    it, every iterator object of the map (three types), under every interleaving of `Next / NextKey /
+    NextValue`, hands out the enumeration (resp. the loaded traversal) call by call, and every callback
+    loop delivers the corresponding projection. -/
+theorem map_iterator_object_history (T : Nat) (hT : legalThreshold T = true) (D : DigestFn (r + 1)) (cfg : MCfg)
+    (hcT : cfg.T = T) (hcL : cfg.L = r + 1) (ty : Nat) (seedOf : SlabID → Nat) (c0 : Ctx)
+    (ops : List E2EM.MOp) (hok : ∀ op ∈ ops, op.Ok T D) (n : Nat) (ld : SlabID → Bool) (f : OMap.IterFlavour) :
+    ∀ m, m = (E2EM.runM cfg (OMap.new (r := r) cfg.addr ty seedOf c0) (ops.take n)).1 →
+      (∀ calls, m.stepCalls cfg ld f calls = .ok (f.mutable, mapAnswers (f.expected m ld) calls)) ∧
+      (∀ c, m.iterateFlavour cfg ld f c (neverStop MapRet) = .ok ((f.expected m ld).map (project c))) := by
+  intro m hm
+  obtain ⟨hinv, hids, hrid, _⟩ := C05.map_history_wellformed T hT D cfg hcT hcL ty seedOf c0 ops hok n
+  rw [← hm] at hinv hids hrid
+  have hcfg : CfgOk cfg T m := ⟨hcT, hcL, by unfold OMap.addr; rw [hrid]⟩
+  exact ⟨fun calls => map_iterator_object_steps T hT D cfg m hcfg _ ⟨hinv, hids⟩ ld f calls,
+    fun c => (map_iterator_object_run T hT D cfg m hcfg _ ⟨hinv, hids⟩ ld f c).1⟩
+
 /-! ### Non-vacuity (maps)
 
 `IterExample.map3`: one data slab whose first element is an inline collision group (keys 11, 12) followed
@@ -311,6 +330,10 @@ example : (mapAnswers (C05.stN 20).1.toList [.nextKey, .nextValue, .nextKey]) =
     [.key (key 11), .value (val 2), .key (key 112)] := by decide
 example : ((C05.stN 20).1.toList.map (fun p => p.1.pay)) =
     [11, 111, 112, 121, 211, 221, 311, 312, 313, 314, 321, 511, 521, 611, 621, 711, 811, 911] := by decide
+
+example (n : Nat) (calls : List MapCall) :=
+  (map_iterator_object_history 256 legal256 D2 cfg2 rfl rfl 0 (fun id => id.idx) ⟨0, [], []⟩
+    C05.hist C05.hist_ok n (fun _ => true) .mut _ rfl).1 calls
 
 /-- partial load: the second data slab `7.4` is not loaded - the loaded-value object hands out the
     pairs of the first data slab only (a proper in-order subsequence), then nil -/
